@@ -606,6 +606,20 @@ serde_json = "1.0.41"
 """
 
 
+def ill_value(t, typedefs):
+    """a JSON value that is certainly not of IDL type t (None when every value is: object)"""
+    c = t["c"]
+    if c == "ref":
+        return ill_value(typedefs[t["n"]], typedefs)
+    if c == "opt":
+        return ill_value(t["e"], typedefs)
+    if c == "object":
+        return None
+    if c in ("bool", "int", "float"):
+        return "x"
+    return 5   # string, array, map, struct, enum
+
+
 def make_cases(mod, case, iface):
     """spec-side: the calls to make and what must be observed"""
     ms = case["ast"]["members"]
@@ -641,6 +655,15 @@ def make_cases(mod, case, iface):
             first_required = [f for f in m["a"]["f"] if f["t"]["c"] != "opt"]
             if not first_required:
                 raws = [r for r in raws if r[0] not in ("empty-parameters",)]
+            # exactly one declared, non-optional member left out of an otherwise good request (whatever its type: an array, a map
+            # or a string set is not "optional because it could be empty"), and one member ill-typed among good ones
+            if isinstance(good, dict):
+                for f in first_required:
+                    if f["n"] in good:
+                        raws.append(("missing-" + f["n"], {"method": full, "parameters": {k: v for k, v in good.items() if k != f["n"]}}))
+                        bad = ill_value(f["t"], typedefs)
+                        if bad is not None:
+                            raws.append(("ill-typed-" + f["n"], {"method": full, "parameters": dict(good, **{f["n"]: bad})}))
             for tag, raw in raws:
                 n += 1
                 cases.append({"id": "%s-%d" % (mod, n), "method": m["n"], "mode": "raw", "raw": raw, "args": None,
